@@ -67,6 +67,10 @@ func fromMultihash(ctx context.Context, services coreiface.CoreAPI, hash cid.Cid
 		sorting.Sort(sortFn, entries, false)
 
 		entries = entrySlice(entries, -*options.Length)
+		if *options.Length == 0 {
+			// entrySlice treats index 0 as "keep everything"
+			entries = entries[:0]
+		}
 	}
 
 	var heads []cid.Cid
